@@ -1,7 +1,7 @@
 (* C04 correspondence: the harness's observations of the real
    parseRepositoryIndex / shouldCheckSignatureForIndex / signatureFileRegex,
    compared with the model and judged by the validators of Spec/IndexSpec.v. *)
-From Apko Require Export Base.Prelude Model.Index Spec.IndexSpec.
+From Apko Require Export Base.Prelude Model.Index Spec.IndexSpec Model.IndexRsa.
 Open Scope string_scope. Open Scope list_scope.
 
 (* ---- names stage: signatureFileRegex.FindStringSubmatch ------------------ *)
@@ -18,6 +18,10 @@ Definition check_name (c : name_case) : list string :=
   end.
 
 (* ---- parse stage ---------------------------------------------------------- *)
+(* a configured key file as the harness's own decoding sees it: no PEM block at all, a first
+   block that is not PKIX DER, a PKIX key that is not RSA, a PKIX RSA key *)
+Inductive key_kind := KNoPem | KBadDer | KNotRsa | KRsa.
+
 Record parse_case := {
   p_ignore : bool; p_listed : list string; p_url : string; p_arch : string;
   p_keys : list string;
@@ -26,6 +30,8 @@ Record parse_case := {
      body as a signature by the key configured under that name over the raw
      bytes after the first member *)
   p_verify : list (string * halg * list N);
+  (* what the harness's own pem / x509 calls make of every configured key FILE *)
+  p_keykinds : list (string * key_kind);
   (* ParsePackageIndex on the bodies that can reach it *)
   p_texts : list (list N * option (list string));
   o_should_check : bool;
@@ -44,10 +50,21 @@ Fixpoint text_of (tbl : list (list N * option (list string))) (b : list N) : opt
   | (b', r) :: tbl' => if list_eqb N.eqb b b' then r else text_of tbl' b
   end.
 
+(* RSAVerifyDigest in stages (Model/IndexRsa.v, the statement list read from the source), fed with
+   the harness's view of the key files and the crypto/rsa truth table: the key "bytes" are the key's name *)
+Definition kind_of (tbl : list (string * key_kind)) (name : string) : key_kind :=
+  match assoc_str name tbl with Some k => k | None => KNoPem end.
+Definition verify_staged (kinds : list (string * key_kind)) (tbl : list (string * halg * list N))
+    (key : string) (a : halg) (d : unit) (sig : list N) : bool :=
+  rsa_verify_digest string string string unit (fun _ _ => true)
+    (fun name => match kind_of kinds name with KNoPem => None | _ => Some name end)
+    (fun name => match kind_of kinds name with KRsa => Some (PubRSA name) | KNotRsa => Some PubOther | _ => None end)
+    (fun k a' _ sg => verify_of tbl k a' tt sg) key a d sig.
+
 Definition check_parse (c : parse_case) : list string :=
   let raw := fun (_ : list member) => tt in
   let hash := fun (_ : halg) (_ : unit) => tt in
-  let verify := verify_of (p_verify c) in
+  let verify := verify_staged (p_keykinds c) (p_verify c) in
   let pt := text_of (p_texts c) in
   let chk := should_check (p_ignore c) (p_listed c) (p_url c) (p_arch c) in
   let req := check_required_b (p_ignore c) (p_listed c) (p_url c) (p_arch c) in
